@@ -45,6 +45,7 @@ def run(ctx):
     r12_header_names(ctx)
     r13_forwarding_getattr(ctx)
     r14_empty_views(ctx)
+    r15_getitem_domain(ctx, sparse)
 
 
 def r1_complete(ctx, dense, sparse):
@@ -273,6 +274,33 @@ def r8_decode_guards(ctx):
     for cname, name, t, sig in fam:
         ctx.ob("C13.R8", ROWS, f"{cname}.{name}", t, "the decode guard equals the one used by the sibling access paths", sig == major,
                detail={"this": sig, "siblings": major}, stmt=f"decode guard in {cname}.{name}")
+    # ... and no access path applies an encoder outside such a guard (a fast path that skips it answers '?' / '' with an exception instead of None)
+    n_app = 0
+    for cname in ("LazyDense", "LazySparse"):
+        c = ctx.model.cls(ROWS, cname)
+        for name, fn in sorted(c.methods.items()):
+            aliases = {"self._enc"} | {t_.id for st in ast.walk(fn) if isinstance(st, ast.Assign) and unparse(st.value) == "self._enc" for t_ in st.targets if isinstance(t_, ast.Name)}
+            elems = set()
+            for x in ast.walk(fn):
+                its = [(x.target, x.iter)] if isinstance(x, ast.For) else [(g.target, g.iter) for g in x.generators] if isinstance(x, (ast.GeneratorExp, ast.ListComp, ast.SetComp, ast.DictComp)) else []
+                for tgt, it in its:
+                    if isinstance(it, ast.Call) and call_name(it) == "zip" and isinstance(tgt, ast.Tuple):
+                        for a_, t_ in zip(it.args, tgt.elts):
+                            if unparse(a_) in aliases and isinstance(t_, ast.Name):
+                                elems.add(t_.id)
+                    elif unparse(it) in aliases and isinstance(tgt, ast.Name):
+                        elems.add(tgt.id)
+            for k in [k for k in ast.walk(fn) if isinstance(k, ast.Call)]:
+                f = k.func
+                is_app = (isinstance(f, ast.Subscript) and unparse(f.value) in aliases) or (isinstance(f, ast.Name) and f.id in elems) or \
+                         (isinstance(f, ast.Call) and isinstance(f.func, ast.Attribute) and f.func.attr == "get" and unparse(f.func.value) in aliases)
+                if not is_app:
+                    continue
+                n_app += 1
+                tries = [a for a in ancestors(k) if isinstance(a, ast.Try) and any(k is y for b in a.body for y in ast.walk(b))]
+                ok = any(len(t.handlers) == 1 and _guard_signature(t) == major for t in tries)
+                ctx.ob("C13.R8", ROWS, f"{cname}.{name}", k, "the encoder is applied inside the decode guard (missing markers are answered with None on this access path too)", ok)
+    ctx.floor("C13.R8", "encoder applications in LazyDense/LazySparse", n_app, 4)
 
 
 def _producers(ctx, fn, e, depth=0):
@@ -489,7 +517,64 @@ def _empty_marker(tree):
             x.test = ast.parse("headers is not None", mode="eval").body
 
 
+def r15_getitem_domain(ctx, sparse, rule="C13.R15"):
+    """the keys a sparse view answers by subscription are the keys it advertises: a key that the underlying row lacks is answered (rather than KeyError)
+    only if keys() adds it -- i.e. only on the true edge of a membership test in the very set that keys() unions in."""
+    from ..cfg import CFG
+    from ..util import escape_path
+    ctx.rule(rule, "subscription agrees with keys(): in a sparse view whose keys() is `<row>.keys() | self.<extra>`, every path of __getitem__ that answers after the row raised "
+                   "KeyError passes the true edge of `key in self.<extra>` (a default for any other key would make row[k] succeed for a k that keys(), items(), len and == report absent)")
+    n = 0
+    for c in sparse:
+        keys, gi = c.methods.get("keys"), c.methods.get("__getitem__")
+        if keys is None or gi is None:
+            continue
+        extra = None
+        for x in walk_shallow(keys):
+            if isinstance(x, ast.BinOp) and isinstance(x.op, ast.BitOr):
+                for side in (x.left, x.right):
+                    if is_self_attr(side):
+                        extra = side.attr
+        handlers = []
+        for t in [t for t in ast.walk(gi) if isinstance(t, ast.Try)]:
+            reads_row = any(isinstance(y, ast.Subscript) and isinstance(y.slice, ast.Name) and y.slice.id == gi.args.args[1].arg for b in t.body for y in ast.walk(b))
+            if reads_row:
+                handlers += [h for h in t.handlers if h.type is None or "KeyError" in unparse(h.type)]
+        if extra is None or not handlers:
+            continue
+        g = CFG(gi)
+        K = gi.args.args[1].arg
+        for h in handlers:
+            n += 1
+            starts = [nd.id for nd in g.nodes if nd.kind == "handler" and nd.ast is h]
+
+            def edge_ok(a, b, l, extra=extra):
+                nd = g.nodes[a]
+                if nd.kind == "test" and nd.ast is not None and unparse(nd.ast) == f"{K} in self.{extra}" and l == "true":
+                    return False
+                if nd.kind == "test" and nd.ast is not None and unparse(nd.ast) in (f"{K} not in self.{extra}", f"not {K} in self.{extra}") and l == "false":
+                    return False
+                return True
+            bad = None
+            for s0 in starts:
+                # leave the handler node itself by any edge
+                p_ = escape_path(g, s0, set(), {g.exit_return}, first_labels_skip=(), edge_ok=edge_ok)
+                if p_ is not None:
+                    bad = p_
+            ctx.ob(rule, c.rel, f"{c.qual}.__getitem__", h, f"a key the row lacks is answered only when it is in self.{extra} (what keys() adds)", bool(starts) and bad is None,
+                   detail=None if bad is None else {"path": [repr(g.nodes[i]) for i in bad]})
+    ctx.floor(rule, "KeyError handlers in __getitem__ of sparse views with an augmented key set", n, 1)
+
+
+def _unguarded_fast_iter(tree):
+    from ..mutate import find_def
+    fn = find_def(tree, "LazyDense.__iter__")
+    fn.body = ast.parse("enc = self._enc\nif not enc:\n    return iter(self._load_or_get())\nelif getattr(self, 'missing', None) is False:\n    return (e(v) for e, v in zip(enc, self._load_or_get()))\nelse:\n    return self._enc_all()").body
+
+
 CONTROLS = [
+    ("EncodeSparse answers every encoded key", ROWS, M.replace_expr("EncodeSparse.__getitem__", "key in self._nsp", "key in self._enc"), "C13.R15"),
+    ("LazyDense iterates without the decode guard when the reader saw no marker", ROWS, _unguarded_fast_iter, "C13.R8"),
     ("SparseDense iterates an empty snapshot", ROWS, M.delete_stmt("SparseDense.__iter__", lambda st: isinstance(st, ast.If) and ast.unparse(st.test) == "not sort"), "C13.R14"),
     ("forwarding __getattr__ without a base case", PRIM, M.delete_stmt("Dense_.__getattr__", M.text_has("if attr == '_row': raise AttributeError(attr)")), "C13.R13"),
     ("EncodeDense indexes its encoders with the raw key", ROWS, M.delete_stmt("EncodeDense.__getitem__", M.text_has("key = key if key.__class__ is int else self._row.headers[key]")), "C13.R12"),
